@@ -490,6 +490,9 @@ func (c *candidateBase) TypePreference() uint16 {
 			tcpPriorityOffset = c.agent().tcpPriorityOffset
 		}
 
+		if tcpPriorityOffset > pref {
+			return 0
+		}
 		pref -= tcpPriorityOffset
 	}
 
